@@ -212,6 +212,17 @@ def angle(*args: PointTensor | LineTensor | PlaneTensor) -> npt.NDArray[np.float
 
         if isinstance(x, PlaneTensor) and isinstance(y, PlaneTensor):
             l = x.meet(y)
+            # parallel planes meet in a line at infinity and enclose the angle 0
+            parallel = infty_plane.contains(l)
+            if np.any(parallel):
+                if np.ndim(parallel) == 0:
+                    return 0j
+                result = np.zeros(np.shape(parallel), dtype=complex)
+                x = x[~parallel] if x.free_indices > 0 else x
+                y = y[~parallel] if y.free_indices > 0 else y
+                if not np.all(parallel):
+                    result[~parallel] = angle(x, y)
+                return result
             p = l.meet(infty_plane)
             polar = LineCollection.from_array(p.array[..., :-1])
             tangent_points = absolute_conic.intersect(polar)
